@@ -115,6 +115,12 @@ if os.path.exists(p):
             res[(m.group(1), m.group(2))] = dict(exit=int(m.group(4)), violations=int(m.group(5)), replay=m.group(7), cls=m.group(8))
 
 rows = []
+# entries that were caught when they were made and are no violation any more on the current /repo
+NEUTRALISED = {
+    ('C14', 'm5'): "caught in round 2 (a Bad_Line message with file content went to serror() as the printf format: crash). Since fix 3cbeff1 "
+                   "(the reader passes handler / reader messages with \"%s\") the change no longer breaks the property: Bad_Line is still returned with a message. "
+                   "The final check exits 0 on it, correctly.",
+}
 for d in sorted(glob.glob(os.path.join(ROOT, 'seeded', 'C*', 'm*'))):
     pid, mid = d.split('/')[-2:]
     mp = os.path.join(d, 'meta.json')
@@ -138,6 +144,7 @@ for d in sorted(glob.glob(os.path.join(ROOT, 'seeded', 'C*', 'm*'))):
                         'tools/baseline_check.py prints missing=0 (439 stable cases), and the demo fails; log in verify.log',
         'check_command': 'tools/apply_seeded.sh seeded/%s/%s %s quick   (git -C /repo apply patch.diff; ./run %s --tier quick; git -C /repo checkout -- .)' % (pid, mid, pid, pid),
         'first_run_of_check': first,
+        'neutralised_by_a_later_fix': NEUTRALISED.get((pid, mid), ''),
         'strengthening': FIRST_MISS.get((pid, mid), ''),
         'final_check_exit': r.get('exit'),
         'final_violation_signature': sig,
@@ -169,5 +176,9 @@ out += ['', '%d changes; %d caught by the checks as they stood, %d after strengt
         '## Strengthening made for the misses', '']
 for (pid, mid), txt in sorted(FIRST_MISS.items()):
     out.append('* **%s/%s** — %s.' % (pid, mid, txt))
+out.append('')
+out.append('## Changes that a later fix: commit made harmless')
+for (pid, mid), txt in sorted(NEUTRALISED.items()):
+    out.append('* **%s/%s** — %s' % (pid, mid, txt))
 open(os.path.join(ROOT, 'seeded', 'README.md'), 'w').write('\n'.join(out) + '\n')
 print('\n'.join(out[-12:]))
